@@ -93,6 +93,17 @@ def make_class(P, mode, shape, creator, slow=0.0, inherit=False):
 
     subcls = []
 
+    class Impostor(object):
+        def who(self, callno=None):
+            return ["impostor", None]
+
+        def boom(self):
+            return "impostor"
+
+        def fire(self, callno=None):
+            pass
+    impostor_cls = [P.server.expose(Impostor)]
+
     def mk(cls=None):
         with book.lock:
             book.creator_calls += 1
@@ -103,7 +114,9 @@ def make_class(P, mode, shape, creator, slow=0.0, inherit=False):
         if creator == "raises_type":
             raise TypeError("creator failed with a TypeError of its own")
         if creator == "wrongtype":
-            return "not an instance"
+            # an object of an unrelated class that happens to offer the same methods (a stand-in, a mock, another service): it is not an
+            # instance of the registered class, so it must never serve a call
+            return impostor_cls[0]()
         if creator == "subclass":
             if not subcls:
                 subcls.append(type("SubOf" + cls.__name__, (cls,), {}))
